@@ -247,7 +247,8 @@ theorem entriesNumV_toNat (b : SecBuf) : (entriesNumV b).toNat = b.size.toNat / 
   by_cases h : b.entSize = 0
   · rw [h]
     have : reloc_num_entsize_nz 0#64 = false := by decide
-    simp [this]
+    have h0 : reloc_num_init = 0 := by decide
+    simp [this, h0]
   · have hz : reloc_num_entsize_nz b.entSize = true := by
       have : (BitVec.signExtend 64 0#32 : BitVec 64) = 0#64 := by decide
       simp only [reloc_num_entsize_nz, this]
